@@ -343,9 +343,9 @@ func jobC16(c *rt.Ctx) {
 func jobC10(c *rt.Ctx) {
 	c.Require("decode/ok/root-direct", "decode/ok/root-times-sqrtm1", "decode/reject", "decode/x=0", "decode/noncanonical-y", "pack/scaled", "pack/unreduced", "roundtrip")
 	var strs [][]byte
-	lim := 1 << 13
+	lim := 1 << 14
 	if c.Thorough() {
-		lim = 1 << 16
+		lim = 1 << 18
 	}
 	for y := 0; y < lim; y++ {
 		for s := 0; s < 2; s++ {
@@ -379,6 +379,18 @@ func jobC10(c *rt.Ctx) {
 		seed := make([]byte, 32)
 		seed[0] = byte(i)
 		strs = append(strs, ref.Public(seed))
+	}
+	// points whose x (or p - x) is tiny: the internal representation of x may then be x + p, whose
+	// low bit is NOT the parity of the canonical x (sign handling must use the fully reduced value)
+	smallX := smallXPoints(40)
+	c.Extra("small_x_points", int64(len(smallX)))
+	for _, pt := range smallX {
+		for _, e := range ref.Encodings(pt) {
+			strs = append(strs, e)
+			f := append([]byte{}, e...)
+			f[31] ^= 0x80 // the other sign: decodes to the negation (or is the x = 0 alternative)
+			strs = append(strs, f)
+		}
 	}
 	e38 := new(big.Int).Rsh(badd(ref.P, -5), 3)
 	for _, b := range strs {
@@ -470,6 +482,7 @@ func jobC10(c *rt.Ctx) {
 		pts = append(pts, ref.BaseMul(big.NewInt(int64(i))))
 	}
 	pts = append(pts, ref.BaseMul(a0), ref.BaseMul(badd(ref.L, -1)).Add(ref.Torsion(3)))
+	pts = append(pts, smallXPoints(40)...)
 	for pi, p := range pts {
 		for zi, z := range zs {
 			if !c.Take() {
@@ -510,4 +523,40 @@ func jobC10(c *rt.Ctx) {
 			}
 		}
 	}
+}
+
+// smallXPoints returns the curve points with x in [0, lim) or p - x in (0, lim): y^2 = (1 + x^2)/(1 - d x^2).
+func smallXPoints(lim int64) []ref.Point {
+	var out []ref.Point
+	for xi := int64(0); xi < lim; xi++ {
+		x := big.NewInt(xi)
+		x2 := new(big.Int).Mul(x, x)
+		num := new(big.Int).Add(big.NewInt(1), x2)
+		den := new(big.Int).Mul(ref.D, x2)
+		den.Sub(big.NewInt(1), den)
+		den.Mod(den, ref.P)
+		y2 := new(big.Int).Mul(num, new(big.Int).ModInverse(den, ref.P))
+		y2.Mod(y2, ref.P)
+		y := new(big.Int).ModSqrt(y2, ref.P)
+		if y == nil {
+			continue
+		}
+		for _, yy := range []*big.Int{y, new(big.Int).Sub(ref.P, y)} {
+			for _, xx := range []*big.Int{x, new(big.Int).Mod(new(big.Int).Neg(x), ref.P)} {
+				p := ref.FromAffine(xx, new(big.Int).Mod(yy, ref.P))
+				if p.OnCurve() {
+					dup := false
+					for _, q := range out {
+						if q.Equal(p) {
+							dup = true
+						}
+					}
+					if !dup {
+						out = append(out, p)
+					}
+				}
+			}
+		}
+	}
+	return out
 }
